@@ -95,7 +95,7 @@ def main(argv=None) -> int:
         # watchdog: the rule pass on one tree takes seconds; a canonicalisation that does not come back (an expression blow-up on a construction the
         # rules were not written for) is an analysis error, not a hang
         import signal
-        limit = int(os.environ.get('TWVERIF_RULE_TIMEOUT', '300') or 0)
+        limit = int(os.environ.get('TWVERIF_RULE_TIMEOUT', '900') or 0)
         if limit and hasattr(signal, 'SIGALRM'):
             def _too_long(signum, frame):
                 raise AnalysisError(f"the rule pass did not finish within {limit} s (expression blow-up): construction not analysable")
